@@ -127,39 +127,21 @@ example : wireTree exTree = true ∧ htmlSafe ["br".toList, "base".toList, "link
 
 /-! ## renderings: sgml-unclosed × (plain, pretty) -/
 
+/-- `xml.sax.saxutils.escape`, which `tostring_unclosed_elements` applies to element data, is the same function as
+    `ET._escape_cdata` (the replacement order `& > <` vs `& < >` does not matter; `>` is escaped by both) -/
+theorem SER_saxEscape_eq (s : Str) : saxEscape s = escapeCdata s := saxEscape_eq s
+
 /-- full strength: like the html forms -/
 def SER_unclosed_renders_full : Prop :=
   ∀ (he : List Str) (t : Tree) (pretty : Bool), wireTree t = true →
     RenderingDoc (escapeTree t) (serializeBody he false pretty t)
-
-theorem rendering_leaf_length {tag d s : Str} (h : Rendering (.node tag (some d) none []) s) :
-    tag.length + d.length + 2 ≤ s.length := by
-  cases h with
-  | leafOpen t d w₁ _ _ _ => simp [Spec.Wire.startTag]; omega
-  | leafClosed t d w₁ w₂ _ _ _ _ => simp [Spec.Wire.startTag]; omega
 
 theorem rendering_agg_length {tag s : Str} {cs : List Tree} (h : Rendering (.node tag none none cs) s) :
     2 * tag.length + 5 ≤ s.length := by
   cases h with
   | agg t cs w s' _ _ _ => simp [Spec.Wire.startTag, Spec.Wire.endTag]; omega
 
-/-- false on the pinned tree: nothing is escaped (`<A>a&b` is not a rendering of `A = "a&amp;b"`) -/
-theorem SER_unclosed_renders_full_false : ¬ SER_unclosed_renders_full := by
-  intro h
-  obtain ⟨r, w, hr, _, e⟩ := h [] (.node ['A'] (some ['a', '&', 'b']) none []) false (by decide)
-  have e1 : escapeTree (.node ['A'] (some ['a', '&', 'b']) none []) =
-      .node ['A'] (some ['a', '&', 'a', 'm', 'p', ';', 'b']) none [] := by
-    simp [escapeTree, escapeTreeList, escapeCdata_eq, escChar]
-  rw [e1] at hr
-  have hl := rendering_leaf_length hr
-  have e2 : serializeBody [] false false (.node ['A'] (some ['a', '&', 'b']) none []) = ['<', 'A', '>', 'a', '&', 'b'] := by
-    simp [serializeBody, toStringUnclosed, startTag, orEmpty]
-  rw [e2] at e
-  have := congrArg List.length e
-  simp at this hl
-  omega
-
-/-- … and a childless aggregate gets no end tag (`<A>` is not a rendering of the aggregate `A`) -/
+/-- a childless aggregate gets no end tag (`<A>` is not a rendering of the aggregate `A`) -/
 theorem SER_unclosed_empty_aggregate_not_rendered :
     ¬ RenderingDoc (escapeTree (.node ['A'] none none [])) (serializeBody [] false false (.node ['A'] none none [])) := by
   rintro ⟨r, w, hr, _, e⟩
@@ -168,56 +150,74 @@ theorem SER_unclosed_empty_aggregate_not_rendered :
   rw [e1] at hr
   have hl := rendering_agg_length hr
   have e2 : serializeBody [] false false (.node ['A'] none none []) = ['<', 'A', '>'] := by
-    simp [serializeBody, toStringUnclosed, startTag, orEmpty]
+    simp [serializeBody, toStringUnclosed, startTag, orEmpty, saxEscape_eq, escapeCdata_nil]
   rw [e2] at e
   have := congrArg List.length e
   simp at this hl
   omega
 
-/-- the guard the pinned `tostring_unclosed_elements` needs: no childless aggregate, leaf data free of `<` -/
-def unclosedGuard (t : Tree) : Bool := !hasEmptyAgg t && (texts t).all (fun d => !d.contains '<')
+/-- … so the full statement is false on the pinned tree (known finding `unclosed_empty_aggregate_no_end_tag`) -/
+theorem SER_unclosed_renders_full_false : ¬ SER_unclosed_renders_full := fun h =>
+  SER_unclosed_empty_aggregate_not_rendered (h [] (.node ['A'] none none []) false (by decide))
 
-/-- under the guard, plain and pretty: the output is a rendering of the tree itself (texts unescaped) -/
+/-- the guard `tostring_unclosed_elements` still needs: no childless aggregate -/
+def unclosedGuard (t : Tree) : Bool := !hasEmptyAgg t
+
+/-- under the guard, plain and pretty, for ALL leaf data: the output is a rendering of the tree with escaped texts,
+    exactly as for the html forms -/
 theorem SER_unclosed_renders_partial (he : List Str) (t : Tree) (pretty : Bool)
     (hw : wireTree t = true) (hg : unclosedGuard t = true) :
-    RenderingDoc t (serializeBody he false pretty t) := by
+    RenderingDoc (escapeTree t) (serializeBody he false pretty t) := by
   obtain ⟨hp, htag, htx⟩ := wireTree_iff.1 hw
-  simp only [unclosedGuard, Bool.and_eq_true, Bool.not_eq_true', List.all_eq_true] at hg
-  have hd : ∀ d ∈ texts t, DataWF d := fun d hd =>
-    ⟨(htx d hd).1, (htx d hd).2, by have := hg.2 d hd; simpa using this⟩
-  have key : ∀ t', Frame t t' → RenderingDoc t (toStringUnclosed t') := by
+  simp only [unclosedGuard, Bool.not_eq_true'] at hg
+  have key : ∀ t', Frame t t' → RenderingDoc (escapeTree t) (toStringUnclosed t') := by
     intro t' hf
-    obtain ⟨r, hr, e, hws⟩ := unclosed_rendering_both.1 t t' hp htag hg.1 hd hf
+    obtain ⟨r, hr, e, hws⟩ := unclosed_rendering_both.1 t t' hp htag hg htx hf
     exact ⟨r, _, hr, hws, e⟩
   cases pretty with
   | false => exact key t (frame_refl_both.1 t)
   | true => exact key _ (SER_indent_frame t 0)
 
-/-- with leaf data also free of `&` and `>` this is the rendering of the escaped tree, as for the html forms -/
-theorem SER_unclosed_renders_escaped_partial (he : List Str) (t : Tree) (pretty : Bool)
-    (hw : wireTree t = true) (hg : unclosedGuard t = true)
-    (hm : ∀ d ∈ texts t, ∀ c ∈ d, c ≠ '&' ∧ c ≠ '<' ∧ c ≠ '>') :
-    RenderingDoc (escapeTree t) (serializeBody he false pretty t) := by
-  rw [SER_escapeTree_id t hm]
-  exact SER_unclosed_renders_partial he t pretty hw hg
-
 def exTreeU : Tree :=
   .node "OFX".toList none none
-    [.node "SONRQ".toList none none [.node "USERPASS".toList (some "p&a>w".toList) none []],
+    [.node "SONRQ".toList none none [.node "USERPASS".toList (some "p&a<ss>w".toList) none []],
      .node "X.Y_1".toList (some "a b".toList) none []]
 
 example : wireTree exTreeU = true ∧ unclosedGuard exTreeU = true := by decide
 
 /-! ## C11 wire clause, unclosed form -/
 
+/-- full strength over arbitrary element trees (any tails) -/
 def SER_wirelex_unclosed_full : Prop :=
   ∀ (he : List Str) (t : Tree) (pretty : Bool), tagsOk t = true → wireLex (serializeBody he false pretty t) = true
 
+/-- false only because tails are written raw (`<A>x` followed by the tail `&`); no tree `to_etree` builds, and no
+    tree `indent` makes of one, has such a tail -/
 theorem SER_wirelex_unclosed_full_false : ¬ SER_wirelex_unclosed_full := by
   intro h
-  have := h [] (.node ['A'] (some ['a', '&', 'b']) none []) false (by decide)
+  have := h [] (.node ['A'] (some ['x']) (some ['&']) []) false (by decide)
   revert this
   decide
+
+/-- for every tree whose tails are wire-safe (absent, whitespace, …), whatever its shape and texts — childless
+    aggregates included —, plain and pretty: every `<` of the body starts a tag token, every `&` an entity -/
+theorem SER_wirelex_unclosed_partial (he : List Str) (t : Tree) (pretty : Bool)
+    (htags : tagsOk t = true) (htails : tailsOk t = true) :
+    wireLex (serializeBody he false pretty t) = true := by
+  cases pretty with
+  | false => exact wireLex_unclosed_both.1 t htags htails
+  | true =>
+    have hf := SER_indent_frame t 0
+    have ht := frame_tags_both.1 t _ hf
+    exact wireLex_unclosed_both.1 _ (ht.1.trans htags) (frame_tailsOk_both.1 t _ hf htails)
+
+/-- in particular for every tree as `to_etree` builds it, with arbitrary leaf texts -/
+theorem SER_wirelex_unclosed (he : List Str) (t : Tree) (pretty : Bool)
+    (hp : parserShaped t = true) (htags : tagsOk t = true) :
+    wireLex (serializeBody he false pretty t) = true :=
+  SER_wirelex_unclosed_partial he t pretty htags (parserShaped_tailsOk_both.1 t hp)
+
+example : parserShaped exTreeU = true ∧ tagsOk exTreeU = true ∧ tailsOk exTreeU = true := by decide
 
 /-! ## `OFXClient.serialize`: version guard and assembly -/
 
